@@ -63,7 +63,7 @@ impl Check for C02 {
             .boxed()
     }
     fn rule(&self) -> String {
-        "external task valid by construction (program vs program with the second a mutation of the first: equivalent or not, private names equal / disjoint / clashing with the _p suffix / swapped, an output predicate possibly missing from one side; or specification vs program; integer/general/symbol placeholders; user-guide assumptions) x flags x an interpretation guided by reference stable models of one side with the other side's private extents derived, 1/4 perturbed in one atom, 1/4 random; oracle: the interpretation refutes an emitted forward/backward problem (exact evaluation of the hooked syntax trees) iff it witnesses a behavioural difference by the reference semantics (stable on the axiom side's vocabulary, private extents supported, not stable on the other side / spec formulas of the direction); non-trivial = both verdicts definite and the axioms of some problem hold; distinct by task + flags + interpretation".into()
+        "external task valid by construction (program vs program with the second a mutation of the first: equivalent or not, private names equal / disjoint / clashing with the _p suffix / swapped, an output predicate possibly missing from one side; or specification vs program; integer/general/symbol placeholders; user-guide assumptions) x flags x an interpretation guided by reference stable models of one side with the other side's private extents derived, 1/4 perturbed in one atom, 1/4 random; oracle: the interpretation refutes an emitted forward/backward problem (exact evaluation of the hooked syntax trees) iff it witnesses a behavioural difference by the reference semantics (stable on the axiom side's vocabulary, private extents supported, not stable on the other side / spec formulas of the direction); non-trivial = both verdicts definite and the axioms of some problem hold; distinct by task + flags + interpretation; in one case of eight every formula of every problem is also read back from the emitted TPTP text (strict reader) and must agree with its syntax tree in truth value and relation by relation".into()
     }
     fn run(&self, case: &Case) -> Outcome {
         let mut c = Chooser::new(case.task.clone());
@@ -130,6 +130,16 @@ impl Check for C02 {
                 }
                 _ => labels.push(format!("{prefix}:inconclusive")),
             }
+        }
+        // one case in eight: the verdicts above come from the syntax trees; the prover gets the text - every
+        // formula as the strict TFF reader reads it must agree with its tree (truth value and relations)
+        if hash64(&description) % 8 == 0 {
+            for p in &problems {
+                if let Some(d) = crate::checks::problems::text_disagrees(p, &j, &pool, 100_000) {
+                    return Outcome::fail("text-differs-from-tree", format!("C02: {d}\n{description}\n  J: {}", j.json()));
+                }
+            }
+            labels.push("text-read-back".into());
         }
         if definite == 0 {
             return Outcome::skip("no direction with two definite verdicts").labels(labels);
